@@ -30,8 +30,15 @@ def read_stream(loop, chunks):
                 waiting = coro.send(None)
                 return  # blocked in readexactly
             except StopIteration as si:
+                if not isinstance(si.value, H.SOMEIPHeader):
+                    # `read` is specified to return a message or to raise: anything else (None at end of stream, say) ends
+                    # the run with a verdict of its own - and must not be read again, or the loop would never end
+                    end = "returned:" + type(si.value).__name__
+                    break
                 msgs.append(si.value)
                 coro = None
+                if len(msgs) > 4096:
+                    end = "runaway"
             except H.ParseError:
                 end = "parseError"
             except asyncio.IncompleteReadError:
